@@ -256,9 +256,11 @@ def terminal_density(ctx):
     import itertools
     repo = ctx.repo
     f = repo.func(SOLVER, "TDGLSolver.update_mu_boundary")
-    names = ["T1", "T2", "T3"]
     n_paths = 0
-    for decisions in itertools.product([False, True], repeat=3):     # True: "cached value equals the new density"
+    # quick: three terminals (8 cache outcomes); thorough: one to four terminals (2 + 4 + 8 + 16 outcomes)
+    sizes = (1, 2, 3, 4) if ctx.tier == "thorough" else (3,)
+    cases = [([f"T{i + 1}" for i in range(nt)], d) for nt in sizes for d in itertools.product([False, True], repeat=nt)]
+    for names, decisions in cases:     # True: "cached value equals the new density"
         T, ip = new_interp(repo)
         I = {n: T.real(f"I_{n}") for n in names}
         L = {n: T.real(f"L_{n}", "pos") for n in names}
@@ -272,7 +274,7 @@ def terminal_density(ctx):
         me = Obj(repo.cls(SOLVER, "TDGLSolver"), {
             "current_func": PyFunc(lambda t, _I=I, _s=seen_t: (_s.append(t), dict(_I))[1]),
             "terminal_current_densities": cache, "terminal_info": terms,
-            "terminal_names": [names[1], names[0], names[2]], "mu_boundary": mub}, label="solver")
+            "terminal_names": ([names[1], names[0]] + names[2:]) if len(names) > 1 else list(names), "mu_boundary": mub}, label="solver")
 
         def policy(test, fr, _T=T, _ip=ip):
             # decide `x != y` / `x == y` between two terms by exact equality of normal forms
